@@ -14,6 +14,10 @@ def Two(mode: int, x: int = 0):
         raise SystemExit(3)                 # e.g. sys.exit(3) somewhere below the task function
     if mode == 13:
         raise KeyboardInterrupt()
+    if mode == 14:
+        import os, shutil
+        shutil.rmtree(os.getcwd())          # the body removes its own working directory, then fails: the crash report cannot be written
+        raise ValueError("boom-%d" % x)
     return {
         2: 5, 3: (), 4: (1,), 5: (x, 2), 6: (1, 2, 3),
         7: {}, 8: {"a": x}, 9: {"b": 2}, 10: {"a": x, "b": 2}, 11: {"a": x, "b": 2, "c": 3},
@@ -98,6 +102,24 @@ def Join(x: int, y: int, tag: int = 0) -> int:
     import vf.rec as R
     R.rec("Join", x, y, tag)
     return x * 1000 + y + tag
+
+
+@python.define
+def Join3(x: int, y: int, z: int, tag: int = 0) -> int:
+    import vf.rec as R
+    R.rec("Join3", x, y, z, tag)
+    return x * 10000 + y * 100 + z + tag
+
+
+@workflow.define(outputs=["j"])
+def DupRef(x: int):
+    """j reads a twice and then b, which sits at the end of a longer branch (c -> d -> b)"""
+    a = workflow.add(Node(x=x, tag=1), name="a")
+    c = workflow.add(Node(x=x, tag=2), name="c")
+    d = workflow.add(Node(x=c.out, tag=3), name="d")
+    b = workflow.add(Node(x=d.out, tag=4), name="b")
+    j = workflow.add(Join3(x=a.out, y=a.out, z=b.out, tag=5), name="j")
+    return j.out
 
 
 @workflow.define(outputs=["f", "m"])
@@ -303,6 +325,12 @@ def Mutator(data: ty.Any, kind: int, val: int, other: ty.Any = None) -> int:
         other.clear(); other.update(tmp)  # swap the contents of two dict inputs
     elif kind == 10:
         data[-1] += val                  # last element of a (large) array
+    elif kind == 11:
+        data[0].append(val)              # a list inside a tuple
+    elif kind == 12:
+        next(iter(data)).v = val         # an object inside a frozenset
+    elif kind == 13:
+        data[1]["k"] = val               # a dict inside a tuple inside a list
     return 1
 
 
